@@ -117,13 +117,14 @@ type Engine struct {
 	tables     map[*types.Var]string
 	errGlobals []string
 	specAxioms []string
+	ghosts     map[string]*synth
 }
 
 func newEngine(w *World, pk *Pkg, c *Contract) *Engine {
 	e := &Engine{w: w, pk: pk, c: c, declared: map[string]bool{}, sortDone: map[string]string{}, sortByType: map[string]string{},
 		cnt: map[string]int{}, inputs: map[any]Value{}, stubsUsed: map[string]bool{}, calleeContracts: map[string]bool{}, inlined: map[string]bool{},
 		boxed: map[types.Object]bool{}, tids: map[string]int{}, loopOrd: map[ast.Stmt]int{},
-		closureBind: map[types.Object]*ast.FuncLit{}, specFuncsUsed: map[string]*types.Func{}, tables: map[*types.Var]string{}}
+		closureBind: map[types.Object]*ast.FuncLit{}, specFuncsUsed: map[string]*types.Func{}, tables: map[*types.Var]string{}, ghosts: map[string]*synth{}}
 	e.bv = c.Mode == "bv"
 	return e
 }
@@ -211,7 +212,14 @@ func (e *Engine) oblige(st *State, kind, goal string, p token.Pos, desc string) 
 		// still count trivially true obligations? no: skip, they carry no information
 		return
 	}
+	what := strings.TrimSpace(strings.TrimPrefix(desc, kind))
+	if len(what) > 60 {
+		what = what[:60]
+	}
 	k := e.prefix + kind
+	if what != "" {
+		k = e.prefix + kind + "[" + strings.ReplaceAll(what, " ", "") + "]"
+	}
 	n := e.cnt[k]
 	e.cnt[k] = n + 1
 	o := &Oblig{Name: fmt.Sprintf("%s.%s/%s#%d", pkgShort(e.pk.Path), e.c.Name, k, n), Unit: e.c.Name, Kind: kind, Pos: e.pos(p),
